@@ -229,6 +229,24 @@ omit [Target] in
 example : @RawList_get t64 true (@RawListS.mk t64 ⟨BitVec.ofNat 64 (2 ^ 63)⟩ ⟨BitVec.ofNat 64 3⟩ ⟨BitVec.ofNat 64 4⟩)
     (⟨BitVec.ofNat 64 2⟩ : @USz t64) = .panic := by decide
 
+/-! ### `List.join`: no size arithmetic, no panic — for every list, the empty one included -/
+
+omit [Target] in
+/-- `List.join(sep)` returns a string for EVERY list of strings (empty,
+    singleton, longer) and every separator.  The binding is transliterated: any
+    length / capacity precomputation written into it (`parts.len() - 1` …)
+    appears here as checked arithmetic and has to be proved not to panic. -/
+theorem join_no_panic (dbg : Bool) (l : List Str) (sep : Str) : bind_ErasedList_join dbg l sep ≠ .panic := by
+  simp [bind_ErasedList_join]
+
+omit [Target] in
+/-- …and it is `<[_]>::join`: on the empty list the empty string, on a singleton its element. -/
+theorem join_empty (dbg : Bool) (sep : Str) : bind_ErasedList_join dbg [] sep = .ok ⟨[]⟩ := by
+  simp [bind_ErasedList_join, Str.join, List.intercalate]
+omit [Target] in
+theorem join_singleton (dbg : Bool) (a sep : Str) : bind_ErasedList_join dbg [a] sep = .ok a := by
+  simp [bind_ErasedList_join, Str.join, List.intercalate]
+
 /-! ### the panic surface of *every* binding and of every `string.rs` method -/
 
 def panics : Risk → Bool
@@ -270,12 +288,14 @@ theorem builtin_no_panic (dbg : Bool) (s sep : Str) (i j n : U64) (l : RawListS)
     bind_RotoString_repeat dbg s n ≠ .panic ∧ bind_RotoString_splitn dbg s n sep ≠ .panic ∧
     bind_RotoString_rsplitn dbg s n sep ≠ .panic ∧
     list_get_lookup dbg l i ≠ .panic ∧ bind_ErasedList_swap dbg l i j ≠ .panic ∧
+    (∀ parts : List Str, bind_ErasedList_join dbg parts sep ≠ .panic) ∧
     (∀ b : Binding, b ≠ .Prefix_new → b.surface.any panics = false) :=
   ⟨bytes_len_no_panic dbg s, bytes_get_no_panic dbg s i, bytes_slice_no_panic dbg s i j,
    chars_len_no_panic dbg s, chars_get_no_panic dbg s i, chars_slice_no_panic dbg s i j,
    lines_len_no_panic dbg s, lines_get_no_panic dbg s i, lines_slice_no_panic dbg s i j,
    repeat_no_panic dbg s n, splitn_no_panic dbg s n sep, rsplitn_no_panic dbg s n sep,
    list_get_no_panic dbg l hl i, list_swap_no_panic dbg l hl i j,
+   fun parts => join_no_panic dbg parts sep,
    fun b hb => by
      cases h : b.surface.any panics with
      | false => rfl
